@@ -47,6 +47,66 @@ pub fn lookup_prog(r: &mut Rng, n_tables: usize, counts: &[usize], slots: usize)
     Prog { ops, tables, skip_connect: false }
 }
 
+/// An ADVERSARIAL prover (hook `plonky2::plonk::prover::verif_hooks::SLDC_COMPENSATE`, compiled only
+/// with the cargo feature `verif_hooks`): for a witness in which one looked-up (input, output) pair is
+/// NOT in its table, the Sum/LDC running sum is started from the value that makes it end at zero.
+/// The property demands that no accepted proof can be produced; the honest prover on the same witness
+/// is the control (it must be rejected).
+fn adversarial_lookup(e: &mut Emitter, r: &mut Rng, prog: &Prog, config: &CircuitConfig, what: &str) {
+    use std::sync::atomic::Ordering;
+    use plonky2::iop::generator::generate_partial_witness;
+    use plonky2::iop::witness::PartitionWitness;
+    use plonky2::plonk::prover::{prove_with_partition_witness, verif_hooks::SLDC_COMPENSATE};
+    use plonky2::util::timing::TimingTree;
+    use plonky2::field::types::{Field, PrimeField64};
+    let built = std::panic::catch_unwind(std::panic::AssertUnwindSafe(|| prog.build_with_targets(config.clone())));
+    let Ok((data, pw, targets)) = built else { return };
+    let Ok(Ok(wit)) = std::panic::catch_unwind(std::panic::AssertUnwindSafe(|| generate_partial_witness(pw, &data.prover_only, &data.common))) else { return };
+    let (nw, deg) = (wit.num_wires, wit.degree);
+    let rep = data.prover_only.representative_map.clone();
+    let idx = |t: plonky2::iop::target::Target| t.index(nw, deg);
+    let lookups: Vec<usize> = (0..prog.ops.len()).filter(|&k| matches!(prog.ops[k], Op::Lookup(..))).collect();
+    if lookups.is_empty() { return; }
+    for _ in 0..2 {
+        let k = *r.pick(&lookups);
+        let Op::Lookup(tb, inp) = &prog.ops[k] else { continue };
+        let x = wit.values[rep[idx(targets[*inp])]].map(|v| v.to_canonical_u64()).unwrap_or(0);
+        let old = wit.values[rep[idx(targets[k])]].unwrap_or(F::ZERO);
+        // a wrong output: the value another table holds for this input, or just another 16-bit value
+        let other = prog.tables.iter().enumerate().filter(|(t2, _)| t2 != tb).filter_map(|(_, t)| t.iter().find(|p| p.0 as u64 == x)).next();
+        let mut newv = match other { Some(p) if r.coin() => F::from_canonical_u64(p.1 as u64), _ => F::from_canonical_u64(r.below(1 << 16)) };
+        if prog.tables[*tb].iter().any(|p| p.0 as u64 == x && F::from_canonical_u64(p.1 as u64) == newv) { newv += F::ONE; }
+        if prog.tables[*tb].iter().any(|p| p.0 as u64 == x && F::from_canonical_u64(p.1 as u64) == newv) { continue; }
+        let mut vals = wit.values.clone();
+        vals[rep[idx(targets[k])]] = Some(newv);
+        let desc = format!("looked-up pair ({x}, {}) replaced by ({x}, {}) which is not in table {tb}; {what}", old.to_canonical_u64(), newv.to_canonical_u64());
+        let mut verdicts = vec![];
+        for adversarial in [false, true] {
+            SLDC_COMPENSATE.store(adversarial, Ordering::SeqCst);
+            let w = PartitionWitness { values: vals.clone(), representative_map: &rep, num_wires: nw, degree: deg };
+            let mut timing = TimingTree::default();
+            e.stage(&format!("impl: proving a wrong lookup pair, adversarial accumulator offset = {adversarial}: {desc}"));
+            let res = std::panic::catch_unwind(std::panic::AssertUnwindSafe(|| prove_with_partition_witness(&data.prover_only, &data.common, w, &mut timing)));
+            SLDC_COMPENSATE.store(false, Ordering::SeqCst);
+            let v = match res { Ok(Ok(p)) => {
+                let v = crate::c03::verdict(&data, &p);
+                if data.common.degree_bits() <= 9 && data.common.config.security_bits < 50 {
+                    let v2 = v.clone();
+                    e.case("wrong lookup pair judged by the Lean verifier", request("c08 verify", &data, &p), || v2);
+                }
+                v }
+                Ok(Err(_)) => "PROVE-ERR".into(), Err(_) => "PROVE-PANIC".into() };
+            e.count(&format!("wrong lookup pair, adversarial offset {adversarial}: {}", v.split(':').next().unwrap()));
+            verdicts.push(v);
+        }
+        if verdicts[0] == "ACCEPT" && data.common.config.security_bits >= 80 { e.oracle_failures.push(format!("ACCEPTED proof (honest prover) for a wrong lookup pair: {desc}")); }
+        if verdicts[1] == "ACCEPT" {
+            e.oracle_failures.push(format!("F-C08-1 (lookup argument: the initial value of the Sum/LDC accumulator is not pinned): a prover that offsets the accumulator gets a proof ACCEPTED for a wrong lookup pair (honest prover on the same witness: {}); num_lookup_polys {}, security_bits {}: {desc}",
+                verdicts[0], data.common.num_lookup_polys, data.common.config.security_bits));
+        }
+    }
+}
+
 pub fn emit(e: &mut Emitter, seed: u64, thorough: bool) {
     let mut r = Rng::new(seed ^ 0x08);
     let n_cases = if thorough { 40 } else { 8 };
@@ -87,5 +147,6 @@ pub fn emit(e: &mut Emitter, seed: u64, thorough: bool) {
         e.count(&format!("tables={n_tables} counts mod slots = {:?}", counts.iter().map(|c| c % slots_lu).collect::<Vec<_>>()));
         // negative: corruptions of lookup outputs / inputs (standard strength every 4th case)
         run_corruptions(e, &mut r, &prog, &config, if thorough { 6 } else { 4 }, "c08", &|op| matches!(op, Op::Lookup(..)));
+        adversarial_lookup(e, &mut r, &prog, &config, &what);
     }
 }
